@@ -29,21 +29,29 @@ program drv_f
   use simc_mod
 #else
   use simlib_mod
+#ifdef HAVE_deep
   use simlib_deep_mod, only : vec_ret_l
+#endif
 #endif
   use drv_hook
   implicit none
   integer, parameter :: NH = 8, NC = 4
 #ifndef SIMC
+#ifdef HAVE_Item
   type(item) :: h(0:NH-1)
+#endif
+#ifdef HAVE_Box
   type(box) :: bx(0:NH-1)
+#endif
+#ifdef HAVE_Holder
   type(holder_int) :: hi(0:NH-1)
   type(holder_double) :: hd(0:NH-1)
+#endif
 #else
   type(pair) :: pr
   type(pair), pointer :: prp
 #endif
-#ifndef SIMC
+#ifdef HAVE_FCAPSULE
   type(SIM_SHROUD_capsule) :: caps(0:NC-1)
 #endif
   integer(C_INT), pointer :: ip(:)
@@ -107,7 +115,7 @@ contains
     write(6, '(A,I0,A,I0,A,I0)') "RES ", k, " ", n, " ", sm
   end subroutine res_arr
 
-#ifndef SIMC
+#ifdef OP_cap_scope
   subroutine scoped_capsule(n)
     ! a capsule that is a local variable: finalised at scope exit
     integer, intent(in) :: n
